@@ -394,13 +394,16 @@ Qed.
 
 Lemma or_us_digit_false c : is_digit c = false -> c <> 95%N -> or_us is_digit c = false.
 Proof. intros H1 H2. unfold or_us. rewrite H1. apply N.eqb_neq in H2. rewrite H2. reflexivity. Qed.
-Lemma or_us_digit_all w : forallb is_digit w = true -> forallb (or_us is_digit) w = true.
-Proof. induction w as [|x w IH]; [reflexivity|]. cbn [forallb]. intro H. apply andb_true_iff in H. destruct H as [H1 H2]. unfold or_us at 1. rewrite H1, (IH H2). reflexivity. Qed.
+(* decimal digits as the expression has them: a digit, then digits and '_' *)
+Definition digits_word (w : text) : bool := match w with d :: ws => is_digit d && forallb (or_us is_digit) ws | [] => false end.
 
-Lemma m_digits_on w rest : w <> [] -> forallb is_digit w = true -> digits_next rest -> m_digits (w ++ rest) = Some (List.length w).
+Lemma digits_word_all w : digits_word w = true -> forallb (or_us is_digit) w = true.
+Proof. destruct w as [|d ws]; [discriminate|]. cbn [digits_word forallb]. intro H. apply andb_true_iff in H. destruct H as [H1 H2]. unfold or_us at 1. rewrite H1, H2. reflexivity. Qed.
+
+Lemma m_digits_on w rest : digits_word w = true -> digits_next rest -> m_digits (w ++ rest) = Some (List.length w).
 Proof.
-  intros Hne Hw Hr. destruct w as [|d w]; [contradiction|]. cbn [app m_digits forallb] in *. apply andb_true_iff in Hw. destruct Hw as [Hd Hw].
-  rewrite Hd. f_equal. cbn [List.length]. f_equal. apply span_word; [apply or_us_digit_all; exact Hw|].
+  intros Hw Hr. destruct w as [|d w]; [discriminate Hw|]. cbn [app m_digits digits_word] in *. apply andb_true_iff in Hw. destruct Hw as [Hd Hw].
+  rewrite Hd. f_equal. cbn [List.length]. f_equal. apply span_word; [exact Hw|].
   destruct rest as [|c r]; [exact I|]. destruct Hr as (H1 & H2 & _). apply or_us_digit_false; assumption.
 Qed.
 
@@ -409,42 +412,49 @@ Proof. induction w; [reflexivity | assumption]. Qed.
 Lemma firstn_app_exact {A} (w rest : list A) : firstn (List.length w) (w ++ rest) = w.
 Proof. induction w as [|x w IH]; [reflexivity|]. cbn. f_equal. exact IH. Qed.
 
-Lemma m_fixed_on w rest : w <> [] -> forallb is_digit w = true -> digits_next rest -> m_fixed (w ++ rest) = None.
+Lemma m_fixed_on w rest : digits_word w = true -> digits_next rest -> m_fixed (w ++ rest) = None.
 Proof.
-  intros Hne Hw Hr. unfold m_fixed. rewrite (m_digits_on w rest Hne Hw Hr), skipn_app_exact.
+  intros Hw Hr. unfold m_fixed. rewrite (m_digits_on w rest Hw Hr), skipn_app_exact.
   destruct rest as [|c r]; [reflexivity|]. destruct Hr as (_ & _ & _ & H46).
   destruct (N.eq_dec c 46) as [->|Hc].
   - specialize (H46 eq_refl). destruct r as [|c2 r]; [reflexivity|]. destruct H46 as [H1 H2]. cbn [span_while]. rewrite (or_us_digit_false c2 H1 H2). reflexivity.
   - destruct c as [|p]; [reflexivity|]. repeat (destruct p as [p|p|]; try reflexivity). contradiction Hc. reflexivity.
 Qed.
 
-Lemma m_float_on w rest : w <> [] -> forallb is_digit w = true -> digits_next rest -> m_float (w ++ rest) = None.
+Lemma m_float_on w rest : digits_word w = true -> digits_next rest -> m_float (w ++ rest) = None.
 Proof. intros. unfold m_float. rewrite m_fixed_on by assumption. reflexivity. Qed.
 
-(* "16#" and the like are no prefix of digits followed by something that is neither a digit nor '#' *)
-Lemma prefix_hash rest : digits_next rest -> forall ds w, forallb is_digit ds = true -> forallb is_digit w = true ->
+Lemma or_us_not_hash x : or_us is_digit x = true -> (35 =? x)%N = false.
+Proof.
+  unfold or_us, is_digit. intro H. apply orb_true_iff in H. apply N.eqb_neq. destruct H as [H|H].
+  - apply andb_true_iff in H. rewrite !N.leb_le in H. lia.
+  - apply N.eqb_eq in H. subst. discriminate.
+Qed.
+
+(* "16#" and the like are no prefix of digits (and '_') followed by something that is neither a digit nor '#' *)
+Lemma prefix_hash rest : digits_next rest -> forall ds w, forallb is_digit ds = true -> forallb (or_us is_digit) w = true ->
   prefix_eq (ds ++ [35%N]) (w ++ rest) = false.
 Proof.
   intro Hr. induction ds as [|a ds IH]; intros w Hds Hw.
   - cbn [app]. destruct w as [|x w]; cbn [app prefix_eq].
     + destruct rest as [|c r]; [reflexivity|]. destruct Hr as (_ & _ & H35 & _). apply not_eq_sym in H35. apply N.eqb_neq in H35. rewrite H35. reflexivity.
-    + cbn [forallb] in Hw. apply andb_true_iff in Hw. destruct Hw as [Hx _]. unfold is_digit in Hx. apply andb_true_iff in Hx. rewrite !N.leb_le in Hx.
-      assert (E : (35 =? x)%N = false) by (apply N.eqb_neq; lia). rewrite E. reflexivity.
+    + cbn [forallb] in Hw. apply andb_true_iff in Hw. destruct Hw as [Hx _]. rewrite (or_us_not_hash x Hx). reflexivity.
   - cbn [forallb] in Hds. apply andb_true_iff in Hds. destruct Hds as [Ha Hds]. cbn [app]. destruct w as [|x w]; cbn [app prefix_eq].
     + destruct rest as [|c r]; [reflexivity|]. destruct Hr as (Hc & _). assert (E : (a =? c)%N = false) by (apply N.eqb_neq; intro; subst; congruence).
       rewrite E. reflexivity.
     + cbn [forallb] in Hw. apply andb_true_iff in Hw. destruct Hw as [_ Hw]. rewrite (IH w Hds Hw), andb_false_r. reflexivity.
 Qed.
 
-Lemma m_based_on pre d w rest ds : pre = ds ++ [35%N] -> forallb is_digit ds = true -> forallb is_digit w = true -> digits_next rest ->
+Lemma m_based_on pre d w rest ds : pre = ds ++ [35%N] -> forallb is_digit ds = true -> forallb (or_us is_digit) w = true -> digits_next rest ->
   m_based pre d (w ++ rest) = None.
 Proof. intros -> Hds Hw Hr. unfold m_based. rewrite (prefix_hash rest Hr ds w Hds Hw). reflexivity. Qed.
 
-Theorem lex_digits w rest : w <> [] -> forallb is_digit w = true -> digits_next rest ->
+Theorem lex_digits w rest : digits_word w = true -> digits_next rest ->
   lex_one (w ++ rest) = Some (List.length w, KDigits).
 Proof.
-  intros Hne Hw Hr. destruct w as [|c0 w'] eqn:Ew; [contradiction|]. rewrite <- Ew in *.
-  assert (Hc0 : is_digit c0 = true) by (rewrite Ew in Hw; cbn [forallb] in Hw; apply andb_true_iff in Hw; exact (proj1 Hw)).
+  intros Hw Hr. destruct w as [|c0 w'] eqn:Ew; [discriminate Hw|]. rewrite <- Ew in *.
+  assert (Hc0 : is_digit c0 = true) by (rewrite Ew in Hw; cbn [digits_word] in Hw; apply andb_true_iff in Hw; exact (proj1 Hw)).
+  pose proof (digits_word_all w Hw) as Hall.
   pose proof (digit_enum c0 Hc0) as Hin.
   pose proof digits_table as Ht. rewrite forallb_forall in Ht. specialize (Ht c0 Hin).
   destruct (others_none_digit c0 Hin (w' ++ rest)) as [Ho Hu]. unfold others_d in Ho.
@@ -460,10 +470,10 @@ Proof.
     rewrite Hm at 1. rewrite !map_app. rewrite E at 1. rewrite (mcand_none_of (c0 :: w' ++ rest) (firstn 9 matchers) Ha).
     rewrite E at 2. rewrite (mcand_none_of (c0 :: w' ++ rest) (skipn 15 matchers) Hb).
     cbn [map]. unfold mcand. cbn [fst snd].
-    rewrite (m_based_on (text_of_string "16#") is_hex w rest [49%N; 54%N] eq_refl eq_refl Hw Hr).
-    rewrite (m_based_on (text_of_string "8#") is_oct w rest [56%N] eq_refl eq_refl Hw Hr).
-    rewrite (m_based_on (text_of_string "2#") is_bin w rest [50%N] eq_refl eq_refl Hw Hr).
-    rewrite (m_float_on w rest Hne Hw Hr), (m_fixed_on w rest Hne Hw Hr), (m_digits_on w rest Hne Hw Hr).
+    rewrite (m_based_on (text_of_string "16#") is_hex w rest [49%N; 54%N] eq_refl eq_refl Hall Hr).
+    rewrite (m_based_on (text_of_string "8#") is_oct w rest [56%N] eq_refl eq_refl Hall Hr).
+    rewrite (m_based_on (text_of_string "2#") is_bin w rest [50%N] eq_refl eq_refl Hall Hr).
+    rewrite (m_float_on w rest Hw Hr), (m_fixed_on w rest Hw Hr), (m_digits_on w rest Hw Hr).
     destruct (List.length w) eqn:El; [rewrite Ew in El; discriminate El|]. reflexivity.
   - apply clen_none_repeat. rewrite Ew. cbn. lia.
   - apply clen_none_repeat_le.
@@ -550,6 +560,8 @@ Theorem lex_empty_comment rest : lex_one (empty_comment_text ++ rest) = Some (11
 Proof. vm_compute. reflexivity. Qed.
 
 Theorem lex_crlf rest : lex_one (13%N :: 10%N :: rest) = Some (2, KNewline).
+Proof. vm_compute. reflexivity. Qed.
+Theorem lex_ff rest : lex_one (12%N :: rest) = Some (1, KNewline).
 Proof. vm_compute. reflexivity. Qed.
 
 (* any block comment: "( *", a body over which the comment expression's automaton runs without closing, closed by its last two
@@ -684,6 +696,30 @@ Theorem lex_items_tokens toks : all_lex toks ->
   map item_view (lex_items (spell_all toks)) = map (fun t => Some (view t)) toks.
 Proof. intro H. unfold lex_items. apply lex_loop_tokens; [exact H | lia]. Qed.
 
+(* ---- symbols followed directly by something else: by evaluation, row by row and character by character ---- *)
+Definition follow_chars : list N :=
+  ident_starts ++ digit_chars ++ [9%N; 13%N; 12%N; 39%N; 34%N; 40; 41; 91; 93; 44; 59; 46; 35; 38; 60; 62; 47; 43; 45; 42; 58; 61]%N.
+(* no pattern continues p with c, and p c does not open a comment *)
+Definition pair_ok (p : text) (c : N) : bool :=
+  negb (existsb (fun row => prefix_eq (p ++ [c]) (pat row)) literal_tokens) &&
+  negb (text_eqb p [40%N] && (c =? 42)%N) && negb (text_eqb p [47%N] && (c =? 47)%N).
+Definition sym_rows : list (list N * bool * tok_kind) := filter (fun row => symbolic (pat row)) literal_tokens.
+Definition sym_then_char (c : N) (row : list N * bool * tok_kind) : Prop :=
+  pair_ok (pat row) c = true -> forall rest, lex_one (pat row ++ c :: rest) = Some (List.length (pat row), snd row).
+
+Ltac sym_char_table :=
+  repeat (constructor; [intros Hp rest; first [ (vm_compute in Hp; discriminate Hp) | (vm_compute; reflexivity) ] |]);
+  constructor.
+
+Lemma sym_rows_value : sym_rows = ltac:(let v := eval vm_compute in sym_rows in exact v).
+Proof. vm_compute. reflexivity. Qed.
+
+Lemma symbols_then_char : forall c, In c follow_chars -> Forall (sym_then_char c) sym_rows.
+Proof.
+  intros c Hin. rewrite sym_rows_value. unfold follow_chars, ident_starts, digit_chars in Hin. cbn [seq app map N.of_nat] in Hin.
+  repeat (destruct Hin as [<-|Hin]; [sym_char_table|]). destruct Hin.
+Qed.
+
 (* ---- a decidable condition on a token list under which every token is read back ---- *)
 Definition nni_b (rest : text) : bool := match rest with [] => true | c :: _ => negb (is_ident_char c) end.
 Definition dn_b (rest : text) : bool :=
@@ -704,17 +740,17 @@ Definition glue (w : text) (c : N) : bool :=
 Definition sym_sep (w : text) (k : tok_kind) (rest : text) : bool :=
   match find (fun row => text_eqb (pat row) w) literal_tokens with
   | Some row => symbolic (pat row) && kind_eqb (snd row) k &&
-                match rest with c :: _ => (c =? 32)%N || (c =? 10)%N || glue w c | [] => false end
+                match rest with c :: _ => (c =? 32)%N || (c =? 10)%N || glue w c || (existsb (N.eqb c) follow_chars && pair_ok w c) | [] => false end
   | None => false
   end.
 Definition tok_sep (t : token) (rest : text) : bool :=
   let w := spell t in let k := t_kind t in
   if wordy w then nni_b rest && kind_eqb (match kw_kind w with Some k' => k' | None => KIdentifier end) k
-  else if match w with [] => false | _ => forallb is_digit w end then dn_b rest && kind_eqb KDigits k
+  else if digits_word w then dn_b rest && kind_eqb KDigits k
   else if string_ok 39 w then kind_eqb KSingleByteString k
   else if string_ok 34 w then kind_eqb KDoubleByteString k
   else if match w with [] => false | _ => forallb is_blank w end then nnb_b rest && kind_eqb KWhitespace k
-  else if text_eqb w [10%N] || text_eqb w [13%N; 10%N] then kind_eqb KNewline k
+  else if text_eqb w [10%N] || text_eqb w [13%N; 10%N] || text_eqb w [12%N] then kind_eqb KNewline k
   else if comment_ok w then kind_eqb KComment k
   else sym_sep w k rest.
 Fixpoint sep_ok (toks : list token) : bool :=
@@ -758,6 +794,11 @@ Proof.
   apply find_in in Ef. destruct Ef as [Hin Hp]. apply text_eqb_true in Hp. intro H.
   apply andb_true_iff in H. destruct H as [H Hn]. apply andb_true_iff in H. destruct H as [Hs Hk]. apply keq in Hk. subst k.
   destruct rest as [|c r]; [discriminate|].
+  apply orb_true_iff in Hn. destruct Hn as [Hn|Hf].
+  2:{ apply andb_true_iff in Hf. destruct Hf as [Hc Hpo]. apply existsb_exists in Hc. destruct Hc as (c' & Hin' & Ec). apply N.eqb_eq in Ec. subst c'.
+      pose proof (symbols_then_char c Hin') as T. rewrite Forall_forall in T.
+      assert (Hsr : In row sym_rows) by (unfold sym_rows; apply filter_In; split; [exact Hin | exact Hs]).
+      specialize (T row Hsr). unfold sym_then_char in T. rewrite Hp in T. exact (T Hpo r). }
   apply orb_true_iff in Hn. destruct Hn as [Hn|Hg]; [apply orb_true_iff in Hn; destruct Hn as [Hn|Hn]; apply N.eqb_eq in Hn; subst c|].
   - pose proof symbols_then_blank as T. rewrite Forall_forall in T. specialize (T row Hin Hs r). rewrite Hp in T. exact T.
   - pose proof symbols_then_newline as T. rewrite Forall_forall in T. specialize (T row Hin Hs r). rewrite Hp in T. exact T.
@@ -798,11 +839,9 @@ Proof.
   destruct (wordy w) eqn:Ew.
   { intro H. apply andb_true_iff in H. destruct H as [Hn Hk]. apply keq in Hk. split; [destruct w; [discriminate Ew | discriminate]|].
     rewrite (lex_word w rest Ew (nni_sound rest Hn)), Hk. reflexivity. }
-  destruct (match w with [] => false | _ => forallb is_digit w end) eqn:Ed.
+  destruct (digits_word w) eqn:Ed.
   { intro H. apply andb_true_iff in H. destruct H as [Hn Hk]. apply keq in Hk.
-    assert (Hne : w <> []) by (destruct w; [discriminate Ed | discriminate]).
-    assert (Hd : forallb is_digit w = true) by (destruct w; [discriminate Ed | exact Ed]).
-    split; [exact Hne|]. rewrite (lex_digits w rest Hne Hd (dn_sound rest Hn)), Hk. reflexivity. }
+    split; [destruct w; [discriminate Ed | discriminate]|]. rewrite (lex_digits w rest Ed (dn_sound rest Hn)), Hk. reflexivity. }
   destruct (string_ok 39 w) eqn:E1.
   { intro Hk. apply keq in Hk. destruct (string_ok_shape 39%N w E1) as (body & Hw & Hb). rewrite Hw. split; [discriminate|].
     rewrite (lex_string 39%N body rest (or_introl eq_refl) Hb). cbn [N.eqb Pos.eqb]. rewrite Hk. reflexivity. }
@@ -814,10 +853,12 @@ Proof.
     assert (Hne : w <> []) by (destruct w; [discriminate Eb | discriminate]).
     assert (Hd : forallb is_blank w = true) by (destruct w; [discriminate Eb | exact Eb]).
     split; [exact Hne|]. rewrite (lex_blanks w rest Hne Hd (nnb_sound rest Hn)), Hk. reflexivity. }
-  destruct (text_eqb w [10%N] || text_eqb w [13%N; 10%N]) eqn:En.
-  { intro Hk. apply keq in Hk. apply orb_true_iff in En. destruct En as [En|En]; apply text_eqb_true in En; rewrite En; (split; [discriminate|]); cbn [app].
+  destruct (text_eqb w [10%N] || text_eqb w [13%N; 10%N] || text_eqb w [12%N]) eqn:En.
+  { intro Hk. apply keq in Hk. apply orb_true_iff in En. destruct En as [En|En]; [apply orb_true_iff in En; destruct En as [En|En]|];
+      apply text_eqb_true in En; rewrite En; (split; [discriminate|]); cbn [app].
     - rewrite lex_newline, Hk. reflexivity.
-    - rewrite lex_crlf, Hk. reflexivity. }
+    - rewrite lex_crlf, Hk. reflexivity.
+    - rewrite lex_ff, Hk. reflexivity. }
   destruct (comment_ok w) eqn:Ec.
   { intro Hk. apply keq in Hk. split; [destruct w; [discriminate Ec | discriminate]|]. rewrite (lex_comment w rest Ec), Hk. reflexivity. }
   intro H. assert (Hne : w <> []).
